@@ -1,0 +1,11 @@
+//go:build verif
+
+package eval
+
+import "github.com/cedar-policy/cedar-go/x/exp/ast"
+
+// VerifFold exposes the constant folder to the verification harness (build tag verif only).
+func VerifFold(n ast.IsNode) ast.IsNode { return fold(n) }
+
+// VerifFoldPolicy exposes foldPolicy to the verification harness (build tag verif only).
+func VerifFoldPolicy(p *ast.Policy) *ast.Policy { return foldPolicy(p) }
